@@ -1027,7 +1027,7 @@ stages:
   rate: 5/20ms
 `, 3, nil, []string{"", "", ""}, 5000*ms, 3, 2000)
 	// stage boundary under load with a run-wide limit: ids stay gapless and exactly N across pools
-	for k := 0; k < c.pick(4, 40); k++ {
+	for k := 0; k < c.pick(6, 40); k++ {
 		lim := 300000 + c.rng.Intn(100000)
 		fileCase("file-stress-limit", fmt.Sprintf(`scenario: scn
 limits:
@@ -1048,10 +1048,18 @@ stages:
   rate: 3000/2ms
 - duration: 30ms
   rate: 4000/2ms
+- duration: 27ms
+  rate: 2000/1ms
+- duration: 34ms
+  rate: 4000/2ms
+- duration: 29ms
+  rate: 3000/2ms
+- duration: 32ms
+  rate: 4000/2ms
 - duration: 3s
   mode: users
   concurrency: 8
-`, lim, 30+c.rng.Intn(20)), 5, []string{"VERIF_FAST"}, []string{"", "", "", "", ""}, 5000*ms, 16, 300)
+`, lim, 30+c.rng.Intn(20)), 9, []string{"VERIF_FAST"}, []string{"", "", "", "", "", "", "", "", ""}, 5000*ms, 16, 300)
 	}
 	return cases
 }
